@@ -28,7 +28,7 @@ const prelude = `(set-option :produce-models true)
 (declare-fun bitxor (Int Int) Int)
 (declare-fun shl (Int Int) Int)
 (declare-fun shr (Int Int) Int)
-(define-fun wfslice ((s Slice)) Bool (and (>= (soff s) 0) (>= (slen s) 0) (<= (slen s) (scap s)) (=> (= (sarr s) null) (= (scap s) 0))))
+(define-fun wfslice ((s Slice)) Bool (and (>= (soff s) 0) (>= (slen s) 0) (<= (slen s) (scap s)) (<= (scap s) 9223372036854775807) (<= (soff s) 9223372036854775807) (=> (= (sarr s) null) (= (scap s) 0))))
 (define-fun nilslice () Slice (mkslice null 0 0 0))
 (define-fun godiv ((a Int) (b Int)) Int (ite (>= a 0) (ite (> b 0) (div a b) (- (div a (- b)))) (ite (> b 0) (- (div (- a) b)) (div (- a) (- b)))))
 (define-fun gomod ((a Int) (b Int)) Int (- a (* b (godiv a b))))
